@@ -97,12 +97,10 @@ Definition build_column (dbid : oid) (bp : pyv) : M oid :=
       match fstr_of d "type" with
       | None => stuck 406
       | Some ty =>
-          do! sn <- (if mem 46%N ty then
-                       match split_on 46%N ty with
-                       | [a; b] => ret (a, b)
-                       | _ => raise EValueError                   (* tuple unpacking: defect D4 *)
-                       end
-                     else ret (K "public", ty)) ;;
+          do! sn <- (match split_on 46%N ty with
+                     | [a; b] => ret (a, b)                        (* exactly one dot (after the fix of D4) *)
+                     | _ => ret (K "public", ty)
+                     end) ;;
           do! db <- get_database dbid ;; do! h <- get_heap ;;
           let ty' := match find (fun e => match h_enum h e with
                                           | Some en => ostr_eqb (e_schema en) (Some (fst sn)) && ostr_eqb (e_name en) (Some (snd sn))
